@@ -55,13 +55,14 @@ func (t *callTool) run(arg string) (string, error) {
 		}
 		return "", compose.InterruptAndRerun
 	}
+	res := fmt.Sprintf("t%d[%s]", t.c.UID, arg)
 	t.rr.mu.Lock()
-	t.rr.execs[t.c.UID] = append(t.rr.execs[t.c.UID], bodyRec{In: arg, Failed: t.c.Fails})
+	t.rr.execs[t.c.UID] = append(t.rr.execs[t.c.UID], bodyRec{In: arg, Out: res, Failed: t.c.Fails})
 	t.rr.mu.Unlock()
 	if t.c.Fails {
 		return "", errNode
 	}
-	return fmt.Sprintf("t%d[%s]", t.c.UID, arg), nil
+	return res, nil
 }
 
 type invTool struct{ *callTool }
@@ -155,7 +156,7 @@ func (rr *runRec) buildToolsSub(n *GNode) (*compose.Graph[vmap, vmap], error) {
 		}
 		o := vmap{fmt.Sprintf("o%d", out.UID): strings.Join(parts, "+")}
 		rr.mu.Lock()
-		rr.execs[out.UID] = append(rr.execs[out.UID], bodyRec{In: "<[]*schema.Message>", Out: render(o)})
+		rr.execs[out.UID] = append(rr.execs[out.UID], bodyRec{In: "<[]*schema.Message>", Out: render(o), OutV: o})
 		rr.mu.Unlock()
 		return o, nil
 	})
